@@ -85,7 +85,7 @@ CLAIMED = {
         note="Trusted: hand-written driver model; progress of the statement parser is C02's theorem."),
     "C17": dict(
         technique="Coq: computed obligation over the token table regenerated from token.go + general lemma about the Keywords map construction; exhaustive API probes per keyword",
-        text="C17 (table half): over the token table regenerated from token.go on every run: every keyword has a unique non-empty upper-case spelling, Lookup finds it from that spelling and from no other string, IsKeyword classifies it, Lookup returns only IDENT or keywords — the finite facts computed in the kernel, 'from no other string' by a general lemma about how init() builds the map. Naming half (C17_naming.v when present): every keyword in any letter case as column name after a dot, column alias and table alias over the SELECT-core models. Every keyword of the current table x 3 positions x 4 letter cases is probed through the real API.",
+        text="C17 (table half): over the token table regenerated from token.go on every run: every keyword has a unique non-empty upper-case spelling, Lookup finds it from that spelling and from no other string, IsKeyword classifies it and accepts no kind without such an entry (C17_is_keyword_only_keywords: the keyword range of the enum has no hole), Lookup returns only IDENT or keywords — the finite facts computed in the kernel, 'from no other string' by a general lemma about how init() builds the map. Naming half (C17_naming.v when present): every keyword in any letter case as column name after a dot, column alias and table alias over the SELECT-core models. Every keyword of the current table x 3 positions x 4 letter cases is probed through the real API.",
         design_ref="DESIGN.md §4 C17",
         note="Trusted: gentables translator; model of token.init/Lookup. Naming half relies on the SELECT-core model (correspondence)."),
     "C18": dict(
